@@ -194,7 +194,7 @@ pub fn main(args: &[String]) {
     let convs: Vec<&str> = arg(args, "--conv").unwrap_or("e,b").split(',').collect();
     let fixed: usize = arg(args, "--fixed").unwrap_or("1").parse().unwrap();
     let rotate: usize = arg(args, "--rotate").unwrap_or("1").parse().unwrap();
-    let limit_ms: u64 = arg(args, "--limit-ms").unwrap_or("10000").parse().unwrap();
+    let limit_ms: u64 = arg(args, "--limit-ms").unwrap_or("60000").parse().unwrap();
     let parsers: Vec<(u32, &str, CooklangParser)> = exts
         .iter()
         .flat_map(|e| convs.iter().map(|c| (*e, *c, CooklangParser::new(ext_from_bits(*e), converter(c)))))
